@@ -98,6 +98,9 @@ type spec struct {
 	BlockFail []int        `json:"block_fail,omitempty"`
 	// U: unusual scripts forced into blocks of the case's chain
 	Force []forceOut `json:"force,omitempty"`
+	// U: run on the first Tip blocks of the big chain (filter headers may
+	// trail by thousands) instead of a chain of the case's own
+	Big bool `json:"big,omitempty"`
 	// R: hard-coded checkpoint at height HardAt: "" none, "true", "false"
 	HardAt   int    `json:"hard_at,omitempty"`
 	HardKind string `json:"hard_kind,omitempty"`
@@ -462,20 +465,31 @@ func runU(sp *spec) (res result) {
 	for _, f := range sp.Force {
 		force[f.Height] = append(force[f.Height], f.Kind)
 	}
-	ch := newChain(r, sp.Tip, fx.gfh, true, sp.Seed*13+int64(sp.ID), force)
-	in := newInterner(nil, 1000)
-	in.toks(ch.hashes)
-	in.toks(ch.fhashes)
-	in.chain(zeroHash, ch.fhashes)
-	tmpl, err := storeh.Template(fx.base)
-	if err != nil {
-		panic(err)
+	var ch *chainT
+	var in *interner
+	var e *storeh.Env
+	var done func()
+	var err error
+	if sp.Big {
+		ch = fx.big.upTo(sp.Tip)
+		in = newInterner(fx.bigIn, 10000000)
+		e, done = openCopy(fx.bigTemplate(sp.Tip), sp.ID)
+	} else {
+		ch = newChain(r, sp.Tip, fx.gfh, true, sp.Seed*13+int64(sp.ID), force)
+		in = newInterner(nil, 1000)
+		in.toks(ch.hashes)
+		in.toks(ch.fhashes)
+		in.chain(zeroHash, ch.fhashes)
+		tmpl, terr := storeh.Template(fx.base)
+		if terr != nil {
+			panic(terr)
+		}
+		e, done = openCopy(tmpl, sp.ID)
+		if err := writeBlocks(e.BS, ch, 1, sp.Tip); err != nil {
+			panic(err)
+		}
 	}
-	e, done := openCopy(tmpl, sp.ID)
 	defer done()
-	if err := writeBlocks(e.BS, ch, 1, sp.Tip); err != nil {
-		panic(err)
-	}
 	if err := writeFilters(e.FS, ch, ch.fheaders, 1, sp.FTip); err != nil {
 		panic(err)
 	}
@@ -504,6 +518,10 @@ func runU(sp *spec) (res result) {
 	res.term = fmt.Sprintf("CU %s\n  %s %s\n  %s\n  %s\n  %s %s\n  %s", in.htab(),
 		runsOf(in.toks(ch.hashes)), runsOf(in.toks(ch.fheaders[:sp.FTip+1])),
 		c.List(w.raws), env, w.truthTerm(), honestTerm(sp), obs)
+	if hc == nil {
+		// the getcfheaders broadcasts the implementation sent
+		res.term = fmt.Sprintf("CQ %s (%s)", c.List(w.reqs), res.term)
+	}
 	res.sp.Obs = obs
 	res.sig = fmt.Sprintf("U:p%d:l%s:e%v:b%d", len(sp.Peers), lieSig(sp), gerr != nil, len(bans))
 	res.nontriv = hasLiar(sp)
@@ -792,6 +810,9 @@ func runR(sp *spec) (res result) {
 		runsOf(in.toks(ch.hashes)), runsOf(in.toks(sh[:sp.FTip+1])), hard,
 		c.List(w.raws), env, hint, c.List(cpTerms),
 		w.truthTerm(), hashesTerm(in, tcps), honestTerm(sp), obs)
+	if sp.Hand == nil {
+		res.term = fmt.Sprintf("CQ %s (%s)", c.List(w.reqs), res.term)
+	}
 	res.sp.Obs = obs
 	res.sig = fmt.Sprintf("R:t%d:f%d:p%d:l%s:h%s:s%v:ok%v:b%d", sp.Tip/1000, sp.FTip/500, len(sp.Peers), lieSig(sp),
 		sp.HardKind, sp.StoreLieFrom > 0, rerr == nil, len(bans))
